@@ -190,6 +190,12 @@ def stray_corpus():
                 if '{S%d}' % k in enum:
                     shapes.append(('en.' + pos + tag, enum.replace('{S%d}' % k, '{S0}').replace('{S1}', '').replace('{S2}', '').replace('{S3}', '').replace('{S4}', '')
                                    if k == 0 else enum.replace('{S0}', '').replace('{S%d}' % k, '{S0}').replace('{S1}', '').replace('{S2}', '').replace('{S3}', '').replace('{S4}', '')))
+        d1 = '#[educe(Default)] ' if e == 'Default' else ''
+        shapes.append(('en1.V0.0', '#[derive(Educe)] #[educe(%s)] enum Ty { %sV0({S0}u8), V1 { f0: u8 } }' % (tl, d1)))
+        shapes.append(('en1.V1.f0', '#[derive(Educe)] #[educe(%s)] enum Ty { %sV0(u8), V1 { {S0}f0: u8 } }' % (tl, d1)))
+        shapes.append(('en1.only', '#[derive(Educe)] #[educe(%s)] enum Ty { %sV0({S0}u8) }' % (tl, d1)))
+        shapes.append(('sn1.f0', '#[derive(Educe)] #[educe(%s)] struct Ty { {S0}f0: u8 }' % tl))
+        shapes.append(('st1.0', '#[derive(Educe)] #[educe(%s)] struct Ty({S0}u8);' % tl))
         if e in ('Debug', 'Clone', 'Copy', 'PartialEq', 'Eq', 'Hash', 'Default'):
             utl = {'Debug': 'Debug(unsafe)', 'PartialEq': 'PartialEq(unsafe)', 'Hash': 'Hash(unsafe)'}.get(e, e)
             shapes.append(('un.f1', '#[derive(Educe)] #[educe(%s)] union Ty { %sf0: u8, {S0}f1: u8 }' % (utl, '#[educe(Default)] ' if e == 'Default' else '')))
